@@ -92,7 +92,7 @@ TAct ==
         /\ R.t >= x.attT
         /\ x' = [x EXCEPT !.acted = TRUE, !.base = R.t, !.baseBeh = "refuse"]
         /\ UNCHANGED cvars
-     \/ /\ phase = "up" /\ cur.beh \in {"close_orderly", "close_abrupt"} /\ OpenDone
+     \/ /\ phase = "up" /\ cur.beh \in {"close_orderly", "close_abrupt", "drop_unserved"} /\ OpenDone
         /\ R.what = (IF cur.beh = "close_orderly" THEN "ws_close" ELSE "tcp_drop")
         /\ R.t >= x.attT + cur.d
         /\ Lose
